@@ -160,6 +160,7 @@ class Engine:
         self.padding_fn = find_fn(mir, r"(?:common::)?padding\(_1: usize\) -> usize")
         self.results = []       # obligations
         self._pending_delta = None
+        self._last_size = None
         self.havocked = set()
         self.modelled = set()
 
@@ -271,7 +272,7 @@ class Engine:
         if mo:
             v = st.get(mo.group(1))
             if v and v.kind == "enum":
-                st[dst] = Val("int", term=zext(v.disc, 8, 64), bits=64)
+                st[dst] = Val("int", term=zext(v.disc, 8, 64), bits=64, fail=getattr(v, "fail", None))
             else:
                 st[dst] = self.havoc("isize", dst)
             return
@@ -301,14 +302,14 @@ class Engine:
             (self.modelled if kind else self.havocked).add(re.sub(r"\{closure@[^}]*\}", "{closure}", callee)[:110])
         if " as Try>::branch" in callee and a0 is not None and a0.kind == "enum":
             note(1)
-            return Val("enum", disc=a0.disc, payload=a0.payload, assume=[])
+            return Val("enum", disc=a0.disc, payload=a0.payload, assume=[], fail=getattr(a0, "fail", None))
         if "::map_err::<" in callee and a0 is not None and a0.kind == "enum":
             note(1)
-            return Val("enum", disc=a0.disc, payload=a0.payload, assume=[])
+            return Val("enum", disc=a0.disc, payload=a0.payload, assume=[], fail=getattr(a0, "fail", None))
         if ("as TryInto<u16>>::try_into" in callee or "<u16 as TryFrom<usize>>::try_from" in callee) and a0 is not None and a0.kind == "int":
             note(1)
             disc = "(ite (bvule %s %s) #x00 #x01)" % (a0.term, bvc(65535, a0.bits))
-            return Val("enum", disc=disc, payload=Val("int", term=zext(a0.term, a0.bits, 16), bits=16), assume=[])
+            return Val("enum", disc=disc, payload=Val("int", term=zext(a0.term, a0.bits, 16), bits=16), assume=[], fail=1)   # Err = the value does not fit 16 bits
         if re.search(r"<u16 as (Into<usize>>::into|From<.*)|<usize as From<u16>>::from", callee) and a0 is not None and a0.kind == "int":
             note(1)
             return Val("int", term=zext(a0.term, a0.bits, 64), bits=64)
@@ -319,7 +320,7 @@ class Engine:
                 res = "(bvadd %s %s)" % (a0.term, b0.term)
                 # Option: None = 0, Some = 1
                 disc = "(ite (bvult %s %s) #x00 #x01)" % (res, a0.term)
-                v = Val("enum", disc=disc, payload=Val("int", term=res, bits=a0.bits), assume=[])
+                v = Val("enum", disc=disc, payload=Val("int", term=res, bits=a0.bits), assume=[], fail=0)   # None = the sum does not fit
                 # remember what the accumulator is being advanced by (release obligation)
                 if self._acc_operand(args[0], st):
                     self._pending_delta = b0
@@ -329,7 +330,7 @@ class Engine:
         if re.search(r"Option::<\w+>::ok_or(_else)?::<", callee) and a0 is not None and a0.kind == "enum":
             note(1)
             # Some(x) -> Ok(x) (disc 0), None -> Err (disc 1)
-            return Val("enum", disc="(ite (= %s #x01) #x00 #x01)" % a0.disc, payload=a0.payload, assume=[])
+            return Val("enum", disc="(ite (= %s #x01) #x00 #x01)" % a0.disc, payload=a0.payload, assume=[], fail=(1 if getattr(a0, "fail", None) == 0 else None))
         if re.match(r"padding$", callee.strip()) and self.padding_fn is not None and a0 is not None and a0.kind == "int":
             r = self.inline_int_fn(self.padding_fn, a0)
             if r is not None and r.kind == "int":
@@ -343,6 +344,7 @@ class Engine:
         if v.kind == "enum":
             pc.extend(v.assume)
             if v.payload is not None and v.payload.bits == 64:
+                self._last_size = v.payload
                 # sizes handed back by callees are object sizes: <= isize::MAX (Rust allocation limit)
                 pc.append("(bvule %s #x7fffffffffffffff)" % v.payload.term)
         return v
@@ -390,6 +392,20 @@ class Engine:
         if term.startswith("return"):
             self.paths += 1
             r = st.get("_0")
+            sz = acc_info.get("size")
+            if acc_info.get("limit_fail") and sz is not None and sz.kind == "int":
+                # the iteration ended on the failing side of a 16-bit range check (try_from / checked_add): that is
+                # only allowed when the attribute really does not fit (the havocked attribute encoder returns the
+                # VALUE size; the TLV header and the padding are the encoder's)
+                s64 = zext(sz.term, sz.bits, 64)
+                pad = "(bvand (bvsub #x0000000000000004 (bvand %s #x0000000000000003)) #x0000000000000003)" % s64
+                # attribute bytes = 4-byte TLV header + value + padding
+                total = "(bvadd (bvadd %s #x0000000000000004) (bvadd %s %s))" % (zext(self.acc_pre, 16, 64), s64, pad)
+                fits = "(bvule %s #x000000000000ffff)" % total
+                self._oblige("both: a 16-bit limit error only when accumulator + attribute size + padding exceeds 65535", pc + [fits], trail, acc_info, st)
+                # vacuity witness: the failing side itself must be reachable (expected sat)
+                wres, _ = self.s.check(list(pc))
+                self.limit_witness = getattr(self, "limit_witness", 0) + (1 if wres == "sat" else 0)
             if r is not None and r.kind == "enum" and r.payload is not None and self.mode == "release":
                 # epilogue: Ok(x) must be 20 + accumulator as mathematical integers
                 cond = "(and (= %s #x00) (not (= %s (bvadd %s %s))))" % (r.disc, r.payload.term, zext(self.acc_pre, 16, 64), bvc(20, 64))
@@ -412,7 +428,11 @@ class Engine:
                     cond = "(= %s %s)" % (v.term, bvc(int(k), v.bits)) if v is not None and v.kind == "int" else "true"
                 if fn.blocks[t][1].startswith("unreachable") and not fn.blocks[t][0]:
                     continue
-                self._next(t, dict(st), pc + [cond], dict(acc_info), head, depth, trail)
+                ai = dict(acc_info)
+                fl = getattr(v, "fail", None) if v is not None else None
+                if fl is not None and ((k != "otherwise" and int(k) == fl) or (k == "otherwise" and str(fl) not in seen)):
+                    ai["limit_fail"] = True
+                self._next(t, dict(st), pc + [cond], ai, head, depth, trail)
             return
         m = re.match(r"assert\(!(?:move|copy) \((_\d+)\.1: bool\), \"(.*?)\".*\) -> \[success: (bb\d+)", term)
         if m:
@@ -450,9 +470,12 @@ class Engine:
             if cur.strip():
                 parts.append(cur)
             self._pending_delta = None
+            self._last_size = None
             st[dst] = self.call(st, dst, callee, parts, pc)
             if self._pending_delta is not None:
                 acc_info["delta"] = self._pending_delta
+            if self._last_size is not None and "size" not in acc_info:
+                acc_info["size"] = self._last_size   # the first size a havocked callee returns in the iteration: the attribute's value size
             return self._next(nxt, st, pc, acc_info, head, depth, trail)
         raise RuntimeError("unsupported terminator: " + term[:120])
 
@@ -548,6 +571,10 @@ def run(scratch, verif):
             info["havocked_calls"] = sorted(set(info["havocked_calls"]) | e.havocked)
             info["modelled_calls"] = sorted(set(info["modelled_calls"]) | e.modelled)
             info.setdefault("paths", {})[mode] = e.paths
+            info.setdefault("limit_error_paths_reachable", {})[mode] = getattr(e, "limit_witness", 0)
+            if getattr(e, "limit_witness", 0) == 0:
+                status = "inconclusive"
+                lines.append("INCONCLUSIVE mir2smt (%s): no reachable 16-bit limit error path was recognised (vacuity witness)" % mode)
             info.setdefault("solver_s", 0.0)
             info["solver_s"] = round(info["solver_s"] + e.s.time, 2)
             info.setdefault("queries", 0)
